@@ -75,10 +75,16 @@ def make_chain(shape, ppq, mpq, pickup=False, ts_return=False):
         require(on1 < on2 < on3)  # performed in score order (the exporter sorts lines by interpolated score time)
         # matched notes are the knots of the performance->score time map (interpolation divides by their
         # differences): their onsets are pinned, the unmatched notes' onsets and all durations stay symbolic
-        require(du2 == 100)
+        matched = [pid for (label, sid, pid) in align_spec if label == "match"]
+        if "n2" in matched:
+            require(du2 == 100)
+        else:
+            # an unmatched n2 keeps its duration symbolic and starts off the tick grid (one symbolic per rounding:
+            # onset and offset both symbolic and off the grid did not finish)
+            require(on2 == 1335)
+            require(du1 == 100)
         require(du3 == 100)
         require(ped_t == 0)
-        matched = [pid for (label, sid, pid) in align_spec if label == "match"]
         for pid, on, val in (("n1", on1, 0), ("n2", on2, 1000), ("n3", on3, 2000)):
             if pid in matched:
                 require(on == val)
@@ -181,11 +187,12 @@ def make_chain(shape, ppq, mpq, pickup=False, ts_return=False):
 
 
 def _inst(tier):
-    out = [{"shape": "mixed", "ppq": 500, "mpq": 500000}, {"shape": "all_match", "ppq": 1000, "mpq": 1000000},
+    # (ppq 96, mpq 600000: a tick is 6.25 ms, so performed times are off the tick grid)
+    out = [{"shape": "mixed", "ppq": 96, "mpq": 600000}, {"shape": "all_match", "ppq": 1000, "mpq": 1000000},
            {"shape": "match_del", "ppq": 500, "mpq": 500000, "pickup": True},
            {"shape": "all_match", "ppq": 96, "mpq": 600000, "ts_return": True}]
     if tier != "quick":
-        out += [{"shape": "all_match", "ppq": 480, "mpq": 500000}, {"shape": "all_match", "ppq": 250, "mpq": 500000}, {"shape": "mixed", "ppq": 96, "mpq": 600000, "pickup": True}, {"shape": "all_match", "ppq": 1000, "mpq": 250000}]
+        out += [{"shape": "mixed", "ppq": 500, "mpq": 500000}, {"shape": "all_match", "ppq": 480, "mpq": 500000}, {"shape": "all_match", "ppq": 250, "mpq": 500000}, {"shape": "mixed", "ppq": 96, "mpq": 600000, "pickup": True}, {"shape": "all_match", "ppq": 1000, "mpq": 250000}]
     return out
 
 
